@@ -929,10 +929,9 @@ impl Interpreter {
         use crate::compiler::Compiler;
         use bytecode_vm::BytecodeVM;
 
-        // Set main module path if this is the entry point
-        if self.main_module_path.is_none() {
-            self.main_module_path = module_path.clone();
-        }
+        // This program is the entry point of a new run: it is the main module from now on
+        // (a script has none), also when an earlier run on this interpreter had another one
+        self.main_module_path = module_path.clone();
         self.current_module_path = module_path.clone();
 
         // Parse the source
@@ -1462,10 +1461,9 @@ impl Interpreter {
         use crate::compiler::Compiler;
         use bytecode_vm::BytecodeVM;
 
-        // Set main module path if this is the entry point
-        if self.main_module_path.is_none() {
-            self.main_module_path = module_path.clone();
-        }
+        // This program is the entry point of a new run: it is the main module from now on
+        // (a script has none), also when an earlier run on this interpreter had another one
+        self.main_module_path = module_path.clone();
         self.current_module_path = module_path.clone();
 
         // Parse the source
